@@ -271,6 +271,24 @@ class TableRow(Mapping[str, object]):
     def __iter__(self) -> Iterator[Any]:
         return self
 
+    # Iterating a `TableRow` steps through the loop's items. The views of it as a
+    # mapping (used when it is looped over or compared) go by its keys.
+
+    def keys(self) -> list[str]:  # type: ignore[override]
+        return sorted(self._keys)
+
+    def values(self) -> list[object]:  # type: ignore[override]
+        return [self[key] for key in self.keys()]
+
+    def items(self) -> list[tuple[str, object]]:  # type: ignore[override]
+        return [(key, self[key]) for key in self.keys()]
+
+    def __eq__(self, other: object) -> bool:
+        return self is other
+
+    def __hash__(self) -> int:
+        return id(self)
+
     def __next__(self) -> object:
         self.step()
         return next(self.it)
